@@ -81,12 +81,17 @@ Proof.
          end; congruence.
 Qed.
 
+Lemma verify_sig_true_sig w k p : verify_sig w k p = Ok true <-> verifies_sig w k p.
+Proof.
+  unfold verify_sig, verifies_sig. split.
+  - destruct (p_sig p) as [si|]; [|discriminate]. intros H. apply dispatch_true in H. destruct H.
+    exists si; auto.
+  - intros (si & -> & Ha & Hv). apply dispatch_true. auto.
+Qed.
+
 Lemma verify_sig_true w k p : k <> [] -> (verify_sig w k p = Ok true <-> verifies w k p).
 Proof.
-  intros Hk. unfold verify_sig, verifies. split.
-  - destruct (p_sig p) as [si|]; [|discriminate]. intros H. apply dispatch_true in H. destruct H.
-    split; auto. exists si; auto.
-  - intros (_ & si & -> & Ha & Hv). apply dispatch_true. auto.
+  intros Hk. rewrite verify_sig_true_sig. unfold verifies. tauto.
 Qed.
 
 Lemma check_key_true w k p : check_key w k p = Ok true <-> verifies w k p.
@@ -96,16 +101,21 @@ Proof.
   - apply verify_sig_true. discriminate.
 Qed.
 
+Lemma verifies_sigb_spec w k p : verifies_sigb w k p = true <-> verifies_sig w k p.
+Proof.
+  unfold verifies_sigb, verifies_sig. destruct (p_sig p) as [si|].
+  - rewrite andb_true_iff. split.
+    + intros [Ha Hv]. exists si. repeat split; auto.
+      destruct (w_verify w (s_type si) k p) as [[]|]; congruence.
+    + intros (si' & E & Ha & Hv). inversion E; subst si'. rewrite Hv. auto.
+  - split; [discriminate | intros (si & E & _); discriminate].
+Qed.
+
 Lemma verifiesb_spec w k p : verifiesb w k p = true <-> verifies w k p.
 Proof.
   unfold verifiesb, verifies. destruct k as [|b r].
   - split; [discriminate | intros [H _]; congruence].
-  - destruct (p_sig p) as [si|].
-    + rewrite andb_true_iff. split.
-      * intros [Ha Hv]. split; [discriminate|]. exists si. repeat split; auto.
-        destruct (w_verify w (s_type si) (b :: r) p) as [[]|]; congruence.
-      * intros (_ & si' & E & Ha & Hv). inversion E; subst si'. rewrite Hv. auto.
-    + split; [discriminate | intros (_ & si & E & _); discriminate].
+  - rewrite verifies_sigb_spec. split; [intros H; split; [discriminate | exact H] | tauto].
 Qed.
 
 (* name_check vs the schema's signing check *)
@@ -433,4 +443,97 @@ Proof.
     + inversion H; subst. split; [discriminate|]. intros Hc; exfalso.
       destruct (chain_cert_inv _ _ _ _ Hc NK EA) as (_ & c' & k' & F' & C' & V' & _).
       rewrite F in F'; inversion F'; subst c'. assert (k' = k) by congruence. subst. apply verifiesb_spec in V'. congruence.
+Qed.
+
+(* ---------------------------------------------------------------- constructors ----------------- *)
+Lemma subsetb_spec a b : subsetb a b = true <-> forall r, In r a -> In r b.
+Proof.
+  unfold subsetb. rewrite forallb_forall. split; intros H r Hr; specialize (H r Hr).
+  - apply existsb_exists in H. destruct H as (x & Hx & E). apply bytes_eqb_spec in E. subst; auto.
+  - apply existsb_exists. exists r. split; auto. apply bytes_eqb_spec. reflexivity.
+Qed.
+
+Lemma anchor_matchesb_spec sc a : anchor_matchesb sc a = true <-> anchor_matches sc a.
+Proof.
+  unfold anchor_matchesb, anchor_matches. destruct (sc_match sc (p_name a)) as [[|m ms]|e].
+  - split; [discriminate | intros (ms & E & N & _); inversion E; subst; congruence].
+  - rewrite subsetb_spec. split.
+    + intros H. exists (m :: ms). repeat split; auto. discriminate.
+    + intros (ms' & E & _ & H). inversion E; subst. exact H.
+  - split; [discriminate | intros (ms & E & _); discriminate].
+Qed.
+
+Lemma self_signedb_spec w a : self_signedb w a = true <-> self_signed w a.
+Proof.
+  unfold self_signedb, self_signed. destruct (p_content a) as [k|].
+  - rewrite verifies_sigb_spec. split; [intros H; exists k; auto | intros (k' & E & H); inversion E; subst; auto].
+  - split; [discriminate | intros (k & E & _); discriminate].
+Qed.
+
+Lemma sanity_check_ok sc a :
+  sanity_check sc a = Ok tt <-> sc_fns_ok sc = true /\ exists p, a = Ok p /\ anchor_matches sc p.
+Proof.
+  unfold sanity_check. destruct (sc_fns_ok sc); cbn.
+  2:{ split; [discriminate | intros [? _]; discriminate]. }
+  destruct a as [p|e]; cbn.
+  2:{ split; [discriminate | intros (_ & p & E & _); discriminate]. }
+  split.
+  - intros H. split; auto. exists p. split; auto. apply anchor_matchesb_spec. unfold anchor_matchesb.
+    destruct (sc_match sc (p_name p)) as [[|m ms]|e]; cbn in H; try discriminate.
+    destruct (subsetb (sc_roots sc) (m :: ms)); [reflexivity | discriminate].
+  - intros (_ & p' & E & M). inversion E; subst p'. apply anchor_matchesb_spec in M.
+    unfold anchor_matchesb in M.
+    destruct (sc_match sc (p_name p)) as [[|m ms]|e]; cbn; try discriminate. rewrite M. reflexivity.
+Qed.
+
+Lemma cascade_init_ok w a chk c :
+  cascade_init w a chk = Ok c <->
+  exists p k, a = Ok p /\ p_content p = Some k /\ verifies_sig w k p /\
+              c = {| c_anchor_name := p_name p; c_anchor_key := k; c_check := chk |}.
+Proof.
+  unfold cascade_init. destruct a as [p|e]; cbn.
+  2:{ split; [discriminate | intros (p & k & E & _); discriminate]. }
+  destruct (p_content p) as [k|] eqn:C.
+  2:{ split; [discriminate | intros (p' & k & E & C' & _); inversion E; subst; congruence]. }
+  destruct (verify_sig w k p) as [[|]|e] eqn:V; cbn.
+  - apply verify_sig_true_sig in V. split.
+    + intros H; inversion H; subst. exists p, k. auto.
+    + intros (p' & k' & E & C' & _ & ->). inversion E; subst p'. assert (k' = k) by congruence. subst. reflexivity.
+  - split; [discriminate|]. intros (p' & k' & E & C' & V' & _). inversion E; subst p'.
+    assert (k' = k) by congruence. subst. apply verify_sig_true_sig in V'. congruence.
+  - split; [discriminate|]. intros (p' & k' & E & C' & V' & _). inversion E; subst p'.
+    assert (k' = k) by congruence. subst. apply verify_sig_true_sig in V'. congruence.
+Qed.
+
+(* the validator is built  <->  user functions present, anchor matches all roots of trust, properly self-signed *)
+Theorem lvs_init_iff w sc a :
+  (exists c, lvs_init w sc a = Ok c) <->
+  sc_fns_ok sc = true /\ exists p, a = Ok p /\ anchor_matches sc p /\ self_signed w p.
+Proof.
+  unfold lvs_init. split.
+  - intros (c & H). destruct (sanity_check sc a) as [[]|e] eqn:S; [|discriminate]. cbn in H.
+    apply sanity_check_ok in S. destruct S as (F & p & E & M).
+    apply cascade_init_ok in H. destruct H as (p' & k & E' & C & V & _).
+    rewrite E in E'. inversion E'; subst p'. split; auto. exists p. repeat split; auto. exists k. auto.
+  - intros (F & p & E & M & k & C & V).
+    assert (S : sanity_check sc a = Ok tt) by (apply sanity_check_ok; split; auto; exists p; auto).
+    rewrite S. cbn. eexists. apply cascade_init_ok. exists p, k. repeat split; eauto.
+Qed.
+
+(* ... and what it is then configured with *)
+Theorem lvs_init_cfg w sc a c :
+  lvs_init w sc a = Ok c ->
+  exists p k, a = Ok p /\ p_content p = Some k /\
+              trust_of c = {| t_anchor_name := p_name p; t_anchor_key := k; t_allowed := allowed_of (Some (sc_check sc)) |}.
+Proof.
+  unfold lvs_init. destruct (sanity_check sc a) as [[]|e]; [|discriminate]. cbn. intros H.
+  apply cascade_init_ok in H. destruct H as (p & k & E & C & _ & ->). exists p, k. auto.
+Qed.
+
+Theorem cascade_init_iff w a :
+  (exists c, cascade_init w a None = Ok c) <-> exists p, a = Ok p /\ self_signed w p.
+Proof.
+  split.
+  - intros (c & H). apply cascade_init_ok in H. destruct H as (p & k & E & C & V & _). exists p. split; auto. exists k; auto.
+  - intros (p & E & k & C & V). eexists. apply cascade_init_ok. exists p, k. repeat split; eauto.
 Qed.
